@@ -121,3 +121,34 @@ def refusal_check(payload):
         if st != "400 Bad Request":
             failures.append({"kind": kind, "value": value, "class": why, "status": st})
     return {"total": total, "failures": failures}
+
+
+# a host (with or without port) supplied by the trusted hop: expected SERVER_NAME / SERVER_PORT / HTTP_HOST
+HOSTS = [
+    ("x-forwarded-host", "example.com", ("example.com", None, "example.com")),
+    ("x-forwarded-host", "example.com:8080", ("example.com", "8080", "example.com:8080")),
+    ("x-forwarded-host", "[2001:db8::1]", ("[2001:db8::1]", None, "[2001:db8::1]")),
+    ("x-forwarded-host", "[2001:db8::1]:8443", ("[2001:db8::1]", "8443", "[2001:db8::1]:8443")),
+    ("forwarded", 'for=1.2.3.4;host="[2001:db8::1]:8443"', ("[2001:db8::1]", "8443", "[2001:db8::1]:8443")),
+    ("forwarded", "for=1.2.3.4;host=example.com:81", ("example.com", "81", "example.com:81")),
+    ("forwarded", "for=1.2.3.4;host=example.com", ("example.com", None, "example.com")),
+]
+
+
+def host_port_check(payload):
+    base = {"REMOTE_ADDR": "10.0.0.9", "REMOTE_HOST": "10.0.0.9", "REMOTE_PORT": "1234", "SERVER_NAME": "srv", "SERVER_PORT": "80", "wsgi.url_scheme": "http",
+            "HTTP_HOST": "srv"}
+    keys = {"x-forwarded-host": "HTTP_X_FORWARDED_HOST", "forwarded": "HTTP_FORWARDED"}
+    failures, total = [], 0
+    for kind, value, (name, port, http_host) in HOSTS:
+        total += 1
+        try:
+            st, env = run(dict(base, **{keys[kind]: value}), trusted_proxy="*", trusted_proxy_count=1, trusted_proxy_headers={kind})
+        except Exception as e:
+            failures.append({"kind": kind, "value": value, "exception": type(e).__name__ + ": " + str(e)[:80]})
+            continue
+        got = (env.get("SERVER_NAME"), env.get("SERVER_PORT"), env.get("HTTP_HOST"))
+        want = (name, port or "80", http_host)
+        if st != "200 OK" or got != want:
+            failures.append({"kind": kind, "value": value, "status": st, "got": got, "expected": want})
+    return {"total": total, "failures": failures}
